@@ -30,14 +30,16 @@ What the model cannot exhibit (named per DESIGN section 5):
   schedule yields crash states inside the set enumerated here (see Model/FileOps.lean).
 -/
 import AioMySensors.Model.FileOps
+import AioMySensors.Lemmas.JsonText
 
 namespace AioMySensors.C15
 open AioMySensors AioMySensors.FileOps
 
 /-- **The property, at full strength**, of an operation sequence `ops` (a function of the new
-text) and a loader: every crash state loads to the old or the new registry. -/
+text) and a loader: every crash state loads to the old or the new registry (for registries within
+the loader's `ok` — what `save` can write and `load` reproduces; everything for the toy loader). -/
 def CrashSafe (L : Loader Reg) (ops : Bytes → List FsOp) : Prop :=
-  ∀ old new : Reg, ∀ c ∈ crashStates (Fs.init (L.dump old)) (ops (L.dump new)),
+  ∀ old new : Reg, L.ok old → L.ok new → ∀ c ∈ crashStates (Fs.init (L.dump old)) (ops (L.dump new)),
     loadFs L c = .ok old ∨ loadFs L c = .ok new
 
 /-- Every crash state of today's save sequence: the live file holds the old text or a prefix of the
@@ -63,36 +65,36 @@ theorem every_prefix_is_a_crash_state (old new p : Bytes) (hp : p <+: new) :
 /-- What a crash during today's save can leave behind, in terms of `load`: the old registry, the
 new registry, the **empty registry** (content `""`) or a **read error** (a non-empty strict prefix).
 The last two are the known finding `truncate-in-place`; nothing else is possible. -/
-theorem crash_load_classes (L : Loader Reg) (old new : Reg) (c : Fs)
+theorem crash_load_classes (L : Loader Reg) (old new : Reg) (ho : L.ok old) (hn : L.ok new) (c : Fs)
     (h : c ∈ crashStates (Fs.init (L.dump old)) (saveOps (L.dump new))) :
     loadFs L c = .ok old ∨ loadFs L c = .ok new ∨
       (c.live = some [] ∧ loadFs L c = .ok L.empty) ∨
       (∃ p, c.live = some p ∧ p <+: L.dump new ∧ p ≠ [] ∧ p ≠ L.dump new ∧ loadFs L c = .readError) := by
   rcases crash_states_are_prefixes _ _ _ h with hc | ⟨p, hc, hp⟩
-  · left; simp [loadFs, hc, L.load_dump]
+  · left; simp [loadFs, hc, L.load_dump old ho]
   · by_cases h0 : p = []
     · subst h0; right; right; left; exact ⟨hc, by simp [loadFs, hc, L.load_empty]⟩
     · by_cases h1 : p = L.dump new
-      · subst h1; right; left; simp [loadFs, hc, L.load_dump]
+      · subst h1; right; left; simp [loadFs, hc, L.load_dump new hn]
       · right; right; right
-        exact ⟨p, hc, hp, h0, h1, by simp [loadFs, hc, L.prefix_error new p hp h0 h1]⟩
+        exact ⟨p, hc, hp, h0, h1, by simp [loadFs, hc, L.prefix_error new p hn hp h0 h1]⟩
 
 /-- **The known finding, proved in the model.**  There are an old registry, a new registry and a
 crash state of today's save sequence that loads to neither: the crash right after the truncating
 open (content `""`) loads as the empty registry.  Needs only a registry different from the empty
 one. -/
-theorem not_atomic (L : Loader Reg) (r : Reg) (hr : r ≠ L.empty) :
-    ∃ old new c, c ∈ crashStates (Fs.init (L.dump old)) (saveOps (L.dump new)) ∧
+theorem not_atomic (L : Loader Reg) (r : Reg) (hok : L.ok r) (hr : r ≠ L.empty) :
+    ∃ old new c, L.ok old ∧ L.ok new ∧ c ∈ crashStates (Fs.init (L.dump old)) (saveOps (L.dump new)) ∧
       loadFs L c ≠ .ok old ∧ loadFs L c ≠ .ok new := by
-  refine ⟨r, r, { live := some [], tmp := none }, every_prefix_is_a_crash_state _ _ [] List.nil_prefix, ?_, ?_⟩ <;>
+  refine ⟨r, r, { live := some [], tmp := none }, hok, hok, every_prefix_is_a_crash_state _ _ [] List.nil_prefix, ?_, ?_⟩ <;>
   · simp only [loadFs, L.load_empty, ne_eq, LoadResult.ok.injEq]
     exact fun h => hr h.symm
 
 /-- The full-strength property is false of the code's operation sequence. -/
-theorem not_crash_safe (L : Loader Reg) (r : Reg) (hr : r ≠ L.empty) : ¬ CrashSafe L saveOps := by
+theorem not_crash_safe (L : Loader Reg) (r : Reg) (hok : L.ok r) (hr : r ≠ L.empty) : ¬ CrashSafe L saveOps := by
   intro hs
-  obtain ⟨old, new, c, hc, h1, h2⟩ := not_atomic L r hr
-  rcases hs old new c hc with h | h
+  obtain ⟨old, new, c, ho, hn, hc, h1, h2⟩ := not_atomic L r hok hr
+  rcases hs old new ho hn c hc with h | h
   · exact h1 h
   · exact h2 h
 
@@ -113,10 +115,10 @@ theorem atomic_live_old_or_new (old new : Bytes) (c : Fs)
 /-- **The property at full strength holds of the atomic sequence**: if the save is made
 temp-file-plus-rename, every crash state loads to the old or the new registry. -/
 theorem atomic_if_renamed (L : Loader Reg) : CrashSafe L saveOpsAtomic := by
-  intro old new c hc
+  intro old new ho hn c hc
   rcases atomic_live_old_or_new _ _ _ hc with h | h
-  · left; simp [loadFs, h, L.load_dump]
-  · right; simp [loadFs, h, L.load_dump]
+  · left; simp [loadFs, h, L.load_dump old ho]
+  · right; simp [loadFs, h, L.load_dump new hn]
 
 /-! ### Any operation sequence: a moment without a usable live file is fatal -/
 
@@ -164,14 +166,14 @@ theorem gap_is_fatal (L : Loader Reg) (old new : Reg) (ho : old ≠ L.empty) (hn
 
 /-- "Move the old file to a backup first, then write the new one" is not crash safe: right after the
 rename nothing is at the live path. -/
-theorem backup_first_not_crash_safe (L : Loader Reg) (r : Reg) (hr : r ≠ L.empty) :
+theorem backup_first_not_crash_safe (L : Loader Reg) (r : Reg) (hok : L.ok r) (hr : r ≠ L.empty) :
     ¬ CrashSafe L saveOpsBackupFirst := by
   intro hs
   have hmem : applyOps (Fs.init (L.dump r)) [.rename .live .tmp] ∈
       crashStates (Fs.init (L.dump r)) (saveOpsBackupFirst (L.dump r)) :=
     state_after_prefix_is_crash_state _ [.rename .live .tmp] _ (by simp)
   have hgap := gap_is_fatal L r r hr hr (applyOps (Fs.init (L.dump r)) [.rename .live .tmp]) (Or.inl rfl)
-  rcases hs r r _ hmem with h | h
+  rcases hs r r hok hok _ hmem with h | h
   · exact hgap.1 h
   · exact hgap.2 h
 
@@ -209,8 +211,8 @@ def toyLoader : Loader Nat where
   dump := toyDump
   empty := 0
   load_empty := rfl
-  load_dump := fun n => by simp [toyLoad, toyDump, toyBody_dump]
-  prefix_error := fun n p hp h0 h1 => by
+  load_dump := fun n _ => by simp [toyLoad, toyDump, toyBody_dump]
+  prefix_error := fun n p _ hp h0 h1 => by
     cases p with
     | nil => exact absurd rfl h0
     | cons b q =>
@@ -219,14 +221,148 @@ def toyLoader : Loader Nat where
       simp [toyLoad, toyBody_prefix n q hq this]
 
 /-- The refutation applies to a concrete loader … -/
-example : ¬ CrashSafe toyLoader saveOps := not_crash_safe toyLoader 1 (by decide)
+example : ¬ CrashSafe toyLoader saveOps := not_crash_safe toyLoader 1 trivial (by decide)
 
-example : ¬ CrashSafe toyLoader saveOpsBackupFirst := backup_first_not_crash_safe toyLoader 1 (by decide)
+example : ¬ CrashSafe toyLoader saveOpsBackupFirst := backup_first_not_crash_safe toyLoader 1 trivial (by decide)
 
 /-- … and so does the positive theorem. -/
 example : CrashSafe toyLoader saveOpsAtomic := atomic_if_renamed toyLoader
 
 /-- The witness, computed: old = new = registry `2`, crash after the truncating open. -/
 example : loadFs toyLoader (applyOps (Fs.init (toyDump 2)) [.openTrunc .live]) = .ok 0 := by decide
+
+/-! ### The real loader: the modelled `json.dumps`, `json.loads` and schema load
+
+`realLoad` is `Persistence.load` into an empty registry from the bytes of the file: strict UTF-8
+decoding, `read or "{}"`, `JsonText.parse` (= `json.loads`), then `Persist.loadFile` (the
+generated except-clauses, `NodeSchema().load` per record).  `realDump` is the bytes
+`Persistence.save` writes: `JsonText.render` (= `json.dumps(…, sort_keys=True, indent=2)`) of the
+schema dump, UTF-8 encoded (the text is ASCII).  The three `Loader` laws are theorems:
+`load_dump` from `JsonText.parse_render` and C13's round trip (`Persist.load_saveSorted`),
+`prefix_error` from `JsonText.prefix_not_json` and the generated except-clause of `load`.
+
+`RealOK` = C13's `RegOK`, every integer attribute printable (`regIntsOK`; `json.dumps` raises
+beyond the digit limit), and `Canon`: the three dict levels in key order, no `reboot` flag.  A
+Python dict is `==` to its key-sorted copy, so every registry within `RegOK` has a canonical
+representative (`Persist.canonReg`, which `saveSorted` applies before rendering), and that one is
+what `load` returns for the file.  `.other` = the file is outside the modelled text fragment (a real
+literal, a lone surrogate escape) or a non-library exception escapes; no crash state of a save is
+of that kind. -/
+
+open Persist JsonText
+
+abbrev Registry := PDict Int Node
+
+/-- `Persistence.load` into an empty registry, from the bytes at the path. -/
+def realLoad (b : Bytes) : LoadResult Registry :=
+  match classify b with
+  | none => .other
+  | some fs =>
+    match loadFile [] fs with
+    | .ok l => .ok l.nodes
+    | .error (.lib .persistenceRead) => .readError
+    | .error _ => .other
+
+/-- The bytes `Persistence.save` writes for the registry. -/
+def realDump (r : Registry) : Bytes := saveBytes r
+
+/-- What `save` can write and `load` gives back as it was. -/
+def RealOK (r : Registry) : Prop := RegOK r ∧ regIntsOK r = true ∧ Canon r
+
+instance (r : Registry) : Decidable (RealOK r) := by unfold RealOK; infer_instance
+
+theorem realLoad_empty : realLoad [] = .ok [] := rfl
+
+theorem saveText_shape (r : Registry) : ∃ body, saveText r = '{' :: (body ++ ['}']) :=
+  render_obj_shape 0 _
+
+/-- A saved file is classified as JSON holding the value `save` handed over. -/
+theorem classify_saved (r : Registry) (h : RealOK r) : classify (realDump r) = some (.value (saveSorted r)) := by
+  obtain ⟨body, e⟩ := saveText_shape r
+  have hp := parse_saveText r h.1 h.2.1 h.2.2
+  have hdec := decodeUtf8_encode_ascii (saveText r) (render_ascii 0 _)
+  rw [e] at hp hdec
+  simp only [classify, realDump, saveBytes, e, hdec, hp]
+
+theorem realLoad_dump (r : Registry) (h : RealOK r) : realLoad (realDump r) = .ok r := by
+  have hl := load_saveSorted r h.1 h.2.2
+  simp only [load] at hl
+  simp only [realLoad, classify_saved r h, loadFile, readFile, hl]
+
+/-- A non-empty proper prefix of a saved file is not JSON: `load` raises `PersistenceReadError`
+(`JSONDecodeError` is caught by the generated clause of the first `try` block). -/
+theorem realLoad_prefix (r : Registry) (p : Bytes) (h : RealOK r) (hp : p <+: realDump r) (h0 : p ≠ [])
+    (h1 : p ≠ realDump r) : realLoad p = .readError := by
+  have hascii : Ascii (saveText r) := render_ascii 0 _
+  have hd : realDump r = (saveText r).map fun c => c.val.toUInt8 := encodeUtf8_ascii _ hascii
+  rw [hd] at hp h1
+  obtain ⟨t, ht, rfl⟩ := List.prefix_map_iff.mp hp
+  have hta : Ascii t := fun c hc => hascii c (ht.subset hc)
+  have ht0 : t ≠ [] := by intro e; subst e; exact h0 rfl
+  have ht1 : t ≠ saveText r := by intro e; subst e; exact h1 rfl
+  have hinv : parse t = .error .invalid :=
+    prefix_not_json _ (renderable_saveSorted r h.1 h.2.1 h.2.2) t ht ht0 ht1
+  have hdec : decodeUtf8 (t.map fun c => c.val.toUInt8) = some t := by
+    rw [← encodeUtf8_ascii t hta]; exact decodeUtf8_encode_ascii t hta
+  cases t with
+  | nil => exact absurd rfl ht0
+  | cons c cs =>
+    simp only [realLoad, classify, hdec, hinv]
+    rfl
+
+/-- **The real loader satisfies the three laws C15 assumes.** -/
+def realLoader : Loader Registry where
+  load := realLoad
+  dump := realDump
+  empty := []
+  ok := RealOK
+  load_empty := realLoad_empty
+  load_dump := realLoad_dump
+  prefix_error := fun r p h hp h0 h1 => realLoad_prefix r p h hp h0 h1
+
+/-- A registry within `RealOK` with two nodes, two children, values, a non-ASCII description and a
+control character in the sketch name (keys in increasing order at all three levels). -/
+def sampleReg : Registry :=
+  [(0, { ntype := 18, pv := cs!"2.2.0" }),
+   (7, { ntype := 17, pv := cs!"2.0", battery := 57, heartbeat := -3, sleeping := true, sketchName := "Sk\n é".toList,
+         children := [(-1, ⟨-1, 6, "温度".toList, [(-2, cs!"x"), (0, []), (43, cs!"21.5")]⟩), (2, ⟨2, 38, [], []⟩)] })]
+
+theorem sampleReg_ok : RealOK sampleReg := by decide
+
+/-- **What a crash during today's save leaves behind, with the real `json.dumps` / `json.loads` /
+schema load in place of the abstract loader**: the old registry, the new registry, the empty
+registry (file content `""`) or `PersistenceReadError` (a non-empty proper prefix of the new
+file) — nothing else. -/
+theorem crash_load_classes_real (old new : Registry) (ho : RealOK old) (hn : RealOK new) (c : Fs)
+    (h : c ∈ crashStates (Fs.init (realDump old)) (saveOps (realDump new))) :
+    loadFs realLoader c = .ok old ∨ loadFs realLoader c = .ok new ∨
+      (c.live = some [] ∧ loadFs realLoader c = .ok []) ∨
+      (∃ p, c.live = some p ∧ p <+: realDump new ∧ p ≠ [] ∧ p ≠ realDump new ∧ loadFs realLoader c = .readError) :=
+  crash_load_classes realLoader old new ho hn c h
+
+/-- **The property is false of today's code, for the real loader**: saving any non-empty registry
+within `RealOK` over itself has a crash state (the file just truncated) that loads to neither the
+old nor the new registry. -/
+theorem not_crash_safe_real : ¬ CrashSafe realLoader saveOps :=
+  not_crash_safe realLoader sampleReg sampleReg_ok (by decide)
+
+theorem backup_first_not_crash_safe_real : ¬ CrashSafe realLoader saveOpsBackupFirst :=
+  backup_first_not_crash_safe realLoader sampleReg sampleReg_ok (by decide)
+
+/-- **With temp-file-plus-rename the property holds at full strength for the real loader**: every
+crash state loads to the old or the new registry. -/
+theorem atomic_if_renamed_real : CrashSafe realLoader saveOpsAtomic := atomic_if_renamed realLoader
+
+/-- In full: for registries within `RealOK`, every crash state of the atomic sequence loads — through
+UTF-8 decoding, `json.loads` and the schema — to the old or to the new registry. -/
+theorem atomic_if_renamed_real_explicit (old new : Registry) (ho : RealOK old) (hn : RealOK new) (c : Fs)
+    (h : c ∈ crashStates (Fs.init (realDump old)) (saveOpsAtomic (realDump new))) :
+    loadFs realLoader c = .ok old ∨ loadFs realLoader c = .ok new :=
+  atomic_if_renamed realLoader old new ho hn c h
+
+/-- No crash state of a save is outside the modelled text fragment. -/
+theorem crash_states_modelled (old new : Registry) (ho : RealOK old) (hn : RealOK new) (c : Fs)
+    (h : c ∈ crashStates (Fs.init (realDump old)) (saveOps (realDump new))) : loadFs realLoader c ≠ .other := by
+  rcases crash_load_classes_real old new ho hn c h with e | e | ⟨_, e⟩ | ⟨p, _, _, _, _, e⟩ <;> rw [e] <;> simp
 
 end AioMySensors.C15
